@@ -576,6 +576,13 @@ func init() {
 		e := c.e()
 		return c.ret(eq(e.bvOf(c.st, c.args[0]), e.bvOf(c.st, c.args[1])))
 	}
+	// bytes.Compare: the lexicographic order as an uninterpreted total comparison bv_cmp (0 iff equal contents,
+	// antisymmetric, values -1/0/1); bytescmp(a, b) in contracts
+	libSpecs["bytes.Compare"] = func(c *callCtx) Val {
+		e := c.e()
+		e.declBvCmp()
+		return c.ret(app("bv_cmp", e.bvOf(c.st, c.args[0]), e.bvOf(c.st, c.args[1])))
+	}
 	// ---- sort ----
 	libSpecs["sort.Slice"] = func(c *callCtx) Val { return sortSpec(c, false) }
 	libSpecs["sort.SliceStable"] = func(c *callCtx) Val { return sortSpec(c, true) }
@@ -699,6 +706,12 @@ func sortSpec(c *callCtx, stable bool) Val {
 	// evaluate less on an arbitrary content with fresh indices: panic-freedom + shape detection
 	probe := st.clone()
 	anyArr := e.vc.fresh("sort_any", "(Array Int "+es+")")
+	// whatever sort.Slice shows the closure is some rearrangement of the original elements (it only swaps): every
+	// element of the probed content is one of the old elements, so properties of all old elements (non-nil) carry over
+	qf := fmt.Sprintf("sort_q_%d", k)
+	e.vc.declFun(qf, []string{"Int"}, "Int")
+	e.vc.assume(fmt.Sprintf("(forall ((j Int)) (! (=> %s (and %s (= (select %s (idx %s j)) (select %s (idx %s (%s j)))))) :pattern ((select %s (idx %s j)))))",
+		inR("j"), inR(app(qf, "j")), anyArr, off, oldArr, off, qf, anyArr, off))
 	e.setHeap(probe, hn, hs, app("store", e.heap(probe, hn, hs), ptr, anyArr))
 	i0, j0 := e.vc.fresh("si", "Int"), e.vc.fresh("sj", "Int")
 	probe.cond = e.vc.define("probe", "Bool", and(st.cond, app("<=", "0", i0), app("<", i0, n), app("<=", "0", j0), app("<", j0, n)))
@@ -737,6 +750,16 @@ func sortSpec(c *callCtx, stable bool) Val {
 		}
 	}
 	return Val{T: c.rt}
+}
+
+func (e *Engine) declBvCmp() {
+	if e.vc.declared["bv_cmp"] {
+		return
+	}
+	e.vc.declared["bv_cmp"] = true
+	e.declAddr()
+	e.vc.declFun("bv_cmp", []string{"BV", "BV"}, "Int")
+	e.vc.declSort("(assert (forall ((a BV) (b BV)) (! (and (<= (- 1) (bv_cmp a b)) (<= (bv_cmp a b) 1) (= (= (bv_cmp a b) 0) (= a b)) (= (bv_cmp a b) (- (bv_cmp b a)))) :pattern ((bv_cmp a b)))))")
 }
 
 // declSeq declares the abstract integer sequences used to talk about sorted copies.
